@@ -25,9 +25,17 @@ round 5  : TLS targets with `inject`: the real ssl.SSLObject (SSLContext.sslobje
            SSLWantReadError / SSLWantWriteError / a short count in the middle of the write backlog, packets of several chunks
            (serializer `chunked`, mixed buffer types), several concurrent senders; oracle only.  All async targets: the packets
            are on the wire in the order of the grants of the send lock / of the calls on the bare TLS transport (order_oracle).
+round 6  : SEVERAL library objects at the same time.  `multi`: 2-4 objects of mixed kinds (the targets above + `sendpoint` =
+           AsyncStreamSenderEndpoint; server-side clients also as connections of ONE server) in one virtual-time loop, one backend
+           object for all or one each, each object with its own transport script and senders, some parked mid-packet for ticks
+           while the others send (vlib/c12_multi.py).  `mthreads`: 2-3 blocking TCP/UDP client objects, each used by its own
+           threads, one of them parked mid-packet (lock held) until a send on ANOTHER client has completed (c12_threads).
+           Oracle: the unchanged one-object oracle on every object's own trace + independence (multi: every object's trace is
+           exactly the one it produces alone in the loop; mthreads: nobody waits for another client's lock).  Oracle only.
 """
 from __future__ import annotations
 
+import asyncio
 from typing import Any
 
 from vlib import core
@@ -82,7 +90,11 @@ RULE = (
     "blocking clients: x auxiliary threads polling the other thread-safe methods x check-then-send idioms x send calls "
     "at which the socket parks the sender mid-packet (lock held) or answers EAGAIN x packets sent by the peer; "
     "non-trivial = at least one sender had to park in the lock / was refused by the guard while another sender was "
-    "suspended inside a partially written packet (or, for fairlock, at least one waiter was queued); distinct by case digest"
+    "suspended inside a partially written packet (or, for fairlock, at least one waiter was queued); distinct by case digest; "
+    "round 6: x 2-4 library objects of mixed kinds in one loop (own or shared backend object, connections of one server), each "
+    "with its own senders / script / cancellations (non-trivial = a send_packet call was made on one object while another "
+    "object had a sender suspended inside its transport); x 2-3 blocking client objects used by their own threads at the same "
+    "time (non-trivial = a sender parked mid-packet saw a send on another client complete, or two objects were contended)"
 )
 
 ASYNC_TARGETS = ("aclient", "sclient", "endpoint", "fairlock", "tls", "tlsclient", "tlsserver")
@@ -101,6 +113,10 @@ def run_real(case: dict) -> list[str]:
         raise
     except Exception as e:      # same convention as core.evaluate_cases (shrinking calls run_real directly)
         return [f"harness-exc {type(e).__name__}: {e}"]
+    except asyncio.CancelledError as e:
+        # a cancellation that escapes a session: only seen when objects of a multi case leak into each other (a sender task
+        # cancelled because ANOTHER object's lock lists a task of the same name as parked)
+        return [f"harness-exc CancelledError: {e}"]
 
 
 def _run_real(case: dict) -> list[str]:
@@ -119,6 +135,14 @@ def _run_real(case: dict) -> list[str]:
     if t in ("tcp", "udp"):
         from vlib import c12_threads
         return c12_threads.run_threads(case)
+    if t == "sendpoint":
+        return R.run_endpoint(case)
+    if t == "multi":
+        from vlib import c12_multi
+        return c12_multi.run_multi(case)
+    if t == "mthreads":
+        from vlib import c12_threads
+        return c12_threads.run_multi_threads(case)
     raise ValueError(t)
 
 
@@ -161,7 +185,7 @@ def real_for_diff(case: dict, real: list[str]) -> list[str]:
 
 
 def ops_from_trace(case: dict, real: list[str]) -> list[str]:
-    use_lock = case["target"] != "endpoint"
+    use_lock = case["target"] not in ("endpoint", "sendpoint")
     ops: list[str] = []
     lines = [ln for ln in real if not ln.startswith(("cancel-req", "rx", "tls.", "note "))]
     prev: list[str] = []
@@ -201,8 +225,8 @@ def model_input(case: dict, real: list[str]):
     if t in TLS_TARGETS:
         from vlib import c12_tls
         return c12_tls.model_input(case, real)
-    if t not in ("aclient", "sclient", "endpoint", "fairlock"):
-        return None
+    if t not in ("aclient", "sclient", "endpoint", "sendpoint", "fairlock"):
+        return None             # (multi / mthreads: oracle only - every object's trace is compared with its one-object run)
     if case.get("lock") == "asyncio" and any(ln.startswith("cancelled ") for ln in real):
         # asyncio.Lock lets a newcomer pass waiters whose cancellation is pending; FairLock (the model) does not.
         # Cancellation schedules of asyncio.Lock are judged by the oracle only.
@@ -212,14 +236,14 @@ def model_input(case: dict, real: list[str]):
         for i, s in enumerate(case["senders"]):
             for h in s["packets"]:
                 pks.append(f"pk {i} {core.hexs(R.expected_chunks(case['spec'], h))}")
-    return f"c12 {0 if t == 'endpoint' else 1}", pks + ops_from_trace(case, real)
+    return f"c12 {0 if t in ('endpoint', 'sendpoint') else 1}", pks + ops_from_trace(case, real)
 
 
 def model_post(case: dict, lines: list[str]) -> list[str]:
     t = case["target"]
     if t in TLS_VIA_CLIENT:
         lines = [ln for ln in lines if not ln.startswith(("send ", "sent "))]
-    if t == "endpoint":
+    if t in ("endpoint", "sendpoint"):
         lines = [ln for ln in lines if not ln.startswith("final ")]
     if t == "fairlock":
         lines = [ln for ln in lines if not ln.startswith("wire ")]
@@ -291,10 +315,38 @@ def outcomes(real: list[str]) -> dict[tuple[str, int], str]:
     return res
 
 
+def multi_oracle(case: dict, real: list[str]) -> str | None:
+    """several objects in one loop: the one-object oracle on every object's own trace + independence (every object's trace
+    is the one it produces when it is alone in the loop)"""
+    from vlib import c12_multi
+
+    per, rest = c12_multi.split(real)
+    objects = case["objects"]
+    for k, sub in enumerate(objects):
+        try:
+            why = oracle(sub, per.get(k, []))
+        except Exception as e:      # a trace that is not one of this object alone (events of another object's tasks in it)
+            why = f"the trace of the object cannot be read as the trace of one object ({type(e).__name__}: {e})"
+        if why:
+            others = ", ".join(f"o{j} {o['target']}" for j, o in enumerate(objects) if j != k)
+            return f"object o{k} ({c12_multi.describe(sub)}; next to {others or 'nothing'}): {why}"
+    for ln in rest:
+        if ln.startswith("alone ") and not ln.endswith(" same"):
+            k = int(ln.split()[1][1:])
+            return (f"object o{k} ({c12_multi.describe(objects[k])}) does not behave next to the other objects of the loop as it "
+                    f"does alone (same inputs, same transport script): {ln.split(None, 2)[2]}")
+    return None
+
+
 def oracle(case: dict, real: list[str]) -> str | None:
     t = case["target"]
     if real and real[0].startswith("harness-exc"):
         return real[0]
+    if t == "multi":
+        return multi_oracle(case, real)
+    if t == "mthreads":
+        from vlib import c12_threads
+        return c12_threads.multi_oracle(case, real)
     if "deadlock" in real:
         return "deadlock: the loop ran out of work while senders were still parked"
     if t in ("tcp", "udp"):
@@ -331,7 +383,7 @@ def oracle(case: dict, real: list[str]) -> str | None:
                 mine.append(h or "-")
             elif o == "cancelled" and case.get("cancels"):
                 pass
-            elif o == "busy" and t == "endpoint":
+            elif o == "busy" and t in ("endpoint", "sendpoint"):
                 pass
             else:
                 return f"send_packet call {j} of s{i} failed: {o}"
@@ -362,7 +414,7 @@ def order_oracle(case: dict, real: list[str], out: dict, rx: list[str]) -> str |
     send lock (clients, server-side client), resp. the order of the calls on the bare TLS transport (the backlog is extended
     synchronously by the call).  Not a model run: read off the trace events alone."""
     t = case["target"]
-    if t == "endpoint" or t not in ASYNC_TARGETS or t == "fairlock":
+    if t in ("endpoint", "sendpoint") or t not in ASYNC_TARGETS or t == "fairlock":
         return None
     ok_packets = {f"s{i}": [h or "-" for j, h in enumerate(s["packets"]) if out.get((f"s{i}", j)) == "ok"]
                   for i, s in enumerate(case["senders"])}
@@ -376,6 +428,8 @@ def order_oracle(case: dict, real: list[str], out: dict, rx: list[str]) -> str |
         elif w[0] != "acq" or _tid(w[1]) is None:
             continue
         name = w[1]
+        if name not in taken:
+            return f"the stream of this object was taken by {name}, which is not one of its {len(taken)} senders"
         if taken[name] < len(ok_packets[name]):
             exp.append(ok_packets[name][taken[name]])
             taken[name] += 1
@@ -437,6 +491,24 @@ def _peer_packets(case: dict, sent_hex: list[str]) -> list[str]:
 
 def nontrivial(case: dict, real: list[str]) -> str | None:
     t = case["target"]
+    if t == "multi":
+        # a send_packet call was made on one object while another object had a sender suspended inside its transport
+        n = next((int(ln.split()[2]) for ln in real if ln.startswith("note overlap ")), 0)
+        if n <= 0:
+            return None
+        kinds = sorted({o["target"] for o in case["objects"]})
+        grouped = any(o.get("server") is not None for o in case["objects"])
+        if len(kinds) == 1:
+            what = f"{len(case['objects'])}x{kinds[0]}"
+        else:
+            what = ("mixed" + ("+tls" if any(k in TLS_TARGETS for k in kinds) else "")
+                    + ("+srv" if any(k in ("sclient", "tlsserver") for k in kinds) else "")
+                    + ("+bare" if any(k in ("endpoint", "sendpoint") for k in kinds) else ""))
+        return ("multi/" + ("shared-backend" if case.get("shared_backend") else "own-backends") + "/" + what
+                + ("/one-server" if grouped else ""))
+    if t == "mthreads":
+        from vlib import c12_threads
+        return c12_threads.multi_nontrivial(case, real)
     if t in ("tcp", "udp"):
         contended = "note contended" in real
         window = "note aux-window" in real      # an auxiliary call was attempted while a sender was parked mid-packet
@@ -475,8 +547,8 @@ def nontrivial(case: dict, real: list[str]) -> str | None:
         if not parked:
             return None
         return f"fairlock/{case.get('lock', 'fair')}/" + ("cancel-woken-head" if woken else ("cancel" if cancelled else "queue"))
-    if t == "endpoint":
-        return "endpoint/busy" + ("-mid" if mid else "") if busy else None
+    if t in ("endpoint", "sendpoint"):
+        return f"{t}/busy" + ("-mid" if mid else "") if busy else None
     if not parked:
         return None
     return f"{t}/{case.get('lock', 'fair')}/" + ("cancel-woken-head" if woken else
@@ -514,7 +586,28 @@ def shrink_threads(case: dict):
         yield {**base, "sizes": [1]}
 
 
+def shrink_multi(case: dict):
+    objs = case["objects"]
+    if len(objs) > 1:
+        for i in range(len(objs)):
+            yield {**case, "objects": objs[:i] + objs[i + 1:]}
+    if case.get("shared_backend"):
+        yield {**case, "shared_backend": False}
+    for i, o in enumerate(objs):
+        for k2 in ("pre", "start", "server"):
+            if o.get(k2):
+                yield {**case, "objects": objs[:i] + [{k: v for k, v in o.items() if k != k2}] + objs[i + 1:]}
+    for i, o in enumerate(objs):
+        for cand in (shrink_threads(o) if case["target"] == "mthreads" else shrink(o)):
+            if case["target"] == "mthreads":
+                cand = {k: v for k, v in cand.items() if k != "tries"}
+            yield {**case, "objects": objs[:i] + [cand] + objs[i + 1:]}
+
+
 def shrink(case: dict):
+    if case["target"] in ("multi", "mthreads"):
+        yield from shrink_multi(case)
+        return
     if case["target"] in ("tcp", "udp"):
         yield from shrink_threads(case)
         return
@@ -566,7 +659,14 @@ def known_key(case: dict, real: list[str], why: str) -> str:
         "interleave" if "merge" in why or "parse" in why or "decrypt" in why else
         ("reader" if why.startswith(("reader", "read ", "the readers", "the receive calls")) else
          ("call-failed" if "failed" in why else "lock")))
-    return f"target={case['target']},lock={case.get('lock', '-')},kind={kind}"
+    target = case["target"]
+    if target in ("multi", "mthreads") and why.startswith("object o"):
+        k = why.split()[1][1:]
+        if k.isdigit() and int(k) < len(case["objects"]):
+            target += ":" + case["objects"][int(k)]["target"]
+            if "does not behave" in why:
+                kind = "independence"
+    return f"target={target},lock={case.get('lock', '-')},kind={kind}"
 
 
 # ------------------------------------------------------------------------------------------------
@@ -781,6 +881,71 @@ def add_tls_traffic(rng, case: dict) -> None:
         case["peer_msgs"] = msgs
 
 
+MULTI_KINDS = ["aclient", "aclient", "aclient", "aclient", "sclient", "sclient", "sclient", "endpoint", "sendpoint", "fairlock",
+               "tlsclient", "tlsserver", "tls"]
+
+
+def gen_multi_case(rng) -> dict:
+    """round 6: 2-4 library objects of mixed kinds in ONE loop, each with its own transport script, senders (2-3), start delays,
+    cancellations of parked senders; a third of the cases are homogeneous (N clients / N endpoints / N server-side clients: a
+    client pool, a proxy, one server with several connections), server-side clients are connections of the same server in half
+    of the cases where two of them have the same serializer; one backend object for all the objects in 60 % of the cases.
+    At least one object has a transport that keeps its sender suspended for virtual ticks (the others run their whole session
+    meanwhile) or for loop turns."""
+    n = rng.choice([2, 2, 2, 3, 3, 4])
+    if rng.random() < 0.35:
+        kinds = [rng.choice(["aclient", "aclient", "sclient", "endpoint", "sendpoint", "tlsclient", "tlsserver", "fairlock"])] * n
+    else:
+        kinds = [rng.choice(MULTI_KINDS) for _ in range(n)]
+    objects = []
+    shared_spec = gen_spec(rng) if rng.random() < 0.5 else None
+    for k, kind in enumerate(kinds):
+        sub = gen_async_case(rng, "endpoint" if kind == "sendpoint" else kind)
+        sub["target"] = kind
+        ss = sub["senders"][:rng.choice([2, 2, 3])]
+        sub["senders"] = ss
+        sub.pop("start_order", None)
+        if rng.random() < 0.5:
+            order = list(range(len(ss)))
+            rng.shuffle(order)
+            sub["start_order"] = order
+        sub["cancels"] = [c for c in sub.get("cancels", []) if c[0] < len(ss)]
+        if kind != "fairlock":
+            # packets that name their object: a byte that reaches another object's wire is seen by that object's parser
+            if kind == "sclient" and shared_spec is not None:
+                sub["spec"] = shared_spec
+                for i, s_ in enumerate(ss):
+                    s_["packets"] = [gen_payload(rng, shared_spec, i, j) for j in range(len(s_["packets"]))]
+            spec = sub["spec"]
+            for s_ in ss:
+                if spec["k"] == "fixed":
+                    s_["packets"] = [(f"{k}" + bytes.fromhex(h).decode("ascii"))[:spec["size"]].encode().hex() for h in s_["packets"]]
+                else:
+                    s_["packets"] = [h if rng.random() < 0.3 else (f"o{k}." + bytes.fromhex(h).decode("ascii")).encode().hex()
+                                     for h in s_["packets"]]
+        sub["pre"] = rng.choice([0, 0, 0, 1, 2, 5])
+        if rng.random() < 0.25:
+            sub["start"] = rng.choice([1, 2, 4, 7])      # built while the others are in the middle of their run / after they closed
+        objects.append(sub)
+    # somebody must stay inside a packet for a while: lengthen one script with tick-long suspensions after 1-3 byte writes
+    holder = rng.randrange(n)
+    if objects[holder]["target"] != "fairlock":
+        big = objects[holder]["target"] in TLS_TARGETS
+        objects[holder]["script"] = ([[rng.choice([7, 20, 23]) if big else rng.choice([1, 2, 3]), rng.choice([-1, -1, -2, -3, 2, 4])]
+                                      for _ in range(rng.randint(1, 4))] + objects[holder]["script"])
+    # connections of one server
+    sc = [k for k, o in enumerate(objects) if o["target"] == "sclient"]
+    if len(sc) >= 2 and rng.random() < 0.6:
+        by_spec: dict[str, list[int]] = {}
+        for k in sc:
+            by_spec.setdefault(repr(sorted(objects[k]["spec"].items(), key=str)), []).append(k)
+        for g, ks in enumerate(by_spec.values()):
+            if len(ks) >= 2:
+                for k in ks:
+                    objects[k]["server"] = g
+    return {"target": "multi", "shared_backend": rng.random() < 0.6, "objects": objects}
+
+
 def gen_thread_case(rng, target: str) -> dict:
     n = rng.randint(2, 5)
     spec = LF if target == "udp" or rng.random() < 0.7 else {"k": "fixed", "size": 6}
@@ -802,6 +967,46 @@ def gen_thread_case(rng, target: str) -> dict:
     if rng.random() < 0.85:
         add_thread_aux(rng, case)
     return case
+
+
+def gen_mthreads_case(rng) -> dict:
+    """round 6: 2-3 blocking client objects (TCP / UDP mixed) used at the same time, each by its own 2-3 sender threads and
+    0-2 auxiliary threads; in 70 % of the cases one object is the `gater`: its senders are parked mid-packet (lock held) until a
+    send_packet on ANOTHER client object has completed"""
+    n = rng.choice([2, 2, 3])
+    objects = []
+    for _ in range(n):
+        sub = gen_thread_case(rng, rng.choice(["tcp", "tcp", "udp"]))
+        sub["senders"] = sub["senders"][:rng.choice([2, 2, 3])]
+        for s_ in sub["senders"]:
+            for key in ("packets", "timeouts", "idioms"):
+                if key in s_:
+                    s_[key] = s_[key][:3]
+        if "aux" in sub:
+            sub["aux"] = sub["aux"][:rng.choice([0, 1, 1, 2])]
+        # the plan of parks / EAGAIN answers was drawn for the longer case: fold it into the send calls that are left
+        calls = _thread_send_calls(sub)
+        for key in ("parks", "eagain"):
+            if sub.get(key):
+                sub[key] = sorted({k % calls for k in sub[key]})
+        objects.append(sub)
+    case = {"target": "mthreads", "objects": objects}
+    if rng.random() < 0.7:
+        g = rng.randrange(n)
+        case["gater"] = g
+        sub = objects[g]
+        calls = _thread_send_calls(sub)
+        sub["parks"] = sorted(set(sub.get("parks") or []) | {rng.randrange(calls) for _ in range(rng.randint(2, 5))})
+        sub.setdefault("park_ms", 1)
+    return case
+
+
+def _thread_send_calls(case: dict) -> int:
+    """about how many send()/sendmsg() calls the socket of a thread case will see"""
+    if case["target"] == "tcp":
+        nbytes = sum(len(R.expected_chunks(case["spec"], h)) for s in case["senders"] for h in s["packets"])
+        return max(4, int(nbytes / (sum(case["sizes"]) / len(case["sizes"]))))
+    return max(1, sum(len(s["packets"]) for s in case["senders"]))
 
 
 def add_thread_aux(rng, case: dict) -> None:
@@ -866,6 +1071,7 @@ def grid_cases():
 
 
 N_TCP_QUICK, N_UDP_QUICK = 150, 50
+N_MTHREADS_QUICK, N_MULTI_QUICK = 50, 500
 
 
 def generate(rng, tier: str, boost: int):
@@ -881,6 +1087,13 @@ def generate(rng, tier: str, boost: int):
     for target, n in [("tcp", N_TCP_QUICK if quick else 900), ("udp", N_UDP_QUICK if quick else 300)]:
         for _ in range(n * boost):
             yield gen_thread_case(trng, target)
+    # round 6: several library objects in one loop / several blocking client objects at the same time (streams of their own,
+    # before the long one-object series: a time box must not cut them off)
+    mrng = _random.Random(rng.getrandbits(64))
+    for _ in range((N_MTHREADS_QUICK if quick else 400) * boost):
+        yield gen_mthreads_case(mrng)
+    for _ in range((N_MULTI_QUICK if quick else 5000) * boost):
+        yield gen_multi_case(mrng)
     for target, n in plan:
         for _ in range(n * boost):
             yield gen_async_case(rng, target)
@@ -896,6 +1109,8 @@ def generate(rng, tier: str, boost: int):
 def extra_coverage(stats) -> dict:
     return {"targets": "aclient, sclient, endpoint, fairlock, tls, tlsclient, tlsserver are replayed through the Lean model "
             "(asyncio.Lock schedules with cancellations: oracle only); tcp/udp thread stress runs: oracle only; TLS cases with "
-            "`inject` (engine refuses writes mid-backlog): oracle only",
+            "`inject` (engine refuses writes mid-backlog): oracle only; multi / mthreads (several objects at once): oracle only "
+            "(every object's trace is compared with the trace of the same object alone, whose kind is replayed through the model "
+            "by the one-object cases)",
             "exhaustive": "thorough tier: complete grid 3x3 start delays x 4^4 per-write pauses for 2 senders x 2 chunks "
             "(aclient with both lock kinds, bare endpoint)"}
